@@ -63,6 +63,7 @@ CAPS = {
     # arithmetic element types other than int (etl::erase / erase_if with a value / parameter of another arithmetic type)
     "sv_ll": [3, 8], "sv_dbl": [3, 8],
 }
+IV_TRIVIAL = ("iv_int", "iv_pod", "iv_ilt")   # inplace_vector flavours whose move members are the defaulted (trivial) ones
 TWO_ARG = ("vi", "iln", "ilt")          # flavours whose element type has T(a, b)
 ARITH = ("sv_int", "sv_ll", "sv_dbl")   # flavours whose element type is arithmetic
 # (a, b) of the two-argument emplace operations.  For std::vector<int> the b of a multi-element result is one value larger
@@ -249,7 +250,7 @@ class Sim:
             v[tg] = [0] * a[1]
         elif name == "cte":
             v[tg] = []
-        elif name in ("asr", "ctr", "cta", "fcc", "fcr"):
+        elif name in ("asr", "ctr", "cta", "fcc", "fcr", "fro"):
             xs = a[2:2 + a[1]]
             if len(xs) > self.cap: return False
             v[tg] = list(xs)
@@ -257,6 +258,15 @@ class Sim:
             v[tg] = list(v[1 - tg])
         elif name == "mva":
             v[tg] = list(v[1 - tg]); v[1 - tg] = []
+        elif name == "mvo":
+            # the source is left as the move leaves it: static_vector / stack keep the size (moved-from elements), an
+            # inplace_vector of a trivially movable T is copied, of any other T emptied
+            v[tg] = list(v[1 - tg])
+            if self.fl.startswith("iv") and self.fl not in IV_TRIVIAL:
+                v[1 - tg] = []
+        elif name == "mco":
+            if self.fl.startswith("iv") and self.fl not in IV_TRIVIAL:
+                v[tg] = []
         elif name == "eif":
             pid = a[1]
             def p(e):
@@ -321,7 +331,7 @@ def sv_single_ops(t, sz, cap, vals):
             ops += [f"rsz {t} {n}", f"rsv {t} {n} {x}", f"asn {t} {n} {x}", f"asr {t} {L((vals * 3)[:n])}", f"ctr {t} {L((vals * 3)[:n])}",
                     f"ask {t} {1 + (n + sz) % 5} {L((vals * 3)[:n])}", f"ctk {t} {1 + (n + sz + 2) % 5} {L((vals * 3)[:n])}"]
         ops += [f"ctn {t} {n}", f"ctv {t} {n} {x}"]
-    ops += ["swp", "fsw", f"cpa {t}", f"mva {t}", f"cpc {t}", f"mrt {t}", "rel", f"sca {t}", f"sma {t}", f"ssw {t}", f"fr {t}", f"bk {t}",
+    ops += ["swp", "fsw", f"cpa {t}", f"mva {t}", f"mvo {t}", f"mvo {1 - t}", f"mco {t}", f"cpc {t}", f"mrt {t}", "rel", f"sca {t}", f"sma {t}", f"ssw {t}", f"fr {t}", f"bk {t}",
             f"rit {t} 0", f"rit {t} 1", f"rit {t} 2", f"cit {t}", f"dat {t}", f"mxs {t}", f"sfr {t} 52", f"sbk {t} 52",
             f"cpi {t} 0 52", f"cpi {t} 1 52", f"cte {t}"]
     if cap >= 2:
@@ -346,16 +356,16 @@ def sv_single_ops(t, sz, cap, vals):
 def st_single_ops(t, sz, cap, vals):
     x = vals[0]
     ops = [f"pb {t} {x}", f"pbr {t} {x}", f"eb {t} {x}", f"ebr {t} {x}", f"pop {t}", f"bk {t}", f"sbk {t} 52", f"siz {t}", "swp", "fsw", "rel",
-           f"cpc {t}", f"mvc {t}", f"cpa {t}", f"mva {t}", f"sca {t}"] + [f"eb2 {t} {a} {b}" for a, b in AB]
+           f"cpc {t}", f"mvc {t}", f"cpa {t}", f"mva {t}", f"mvo {t}", f"mvo {1 - t}", f"mco {t}", f"sca {t}"] + [f"eb2 {t} {a} {b}" for a, b in AB]
     for n in range(0, cap + 2):
-        ops += [f"fcc {t} {L((vals * 3)[:n])}", f"fcr {t} {L((vals * 3)[:n])}"]
+        ops += [f"fcc {t} {L((vals * 3)[:n])}", f"fcr {t} {L((vals * 3)[:n])}", f"fro {t} {L((vals * 3)[:n])}"]
     return ops
 
 
 def iv_single_ops(t, sz, cap, vals):
     x = vals[0]
     ops = [f"tpb {t} {x}", f"tpb {t} {x + 1}", f"tem {t} {x}", f"tpr {t} {x}", f"upb {t} {x}", f"upb {t} {x + 1}", f"uem {t} {x}", f"upr {t} {x}",
-           f"pop {t}", f"clr {t}", f"fr {t}", f"bk {t}", f"ivc {t}", f"ivm {t}", f"cpa {t}", f"mva {t}", f"sca {t}", f"sma {t}",
+           f"pop {t}", f"clr {t}", f"fr {t}", f"bk {t}", f"ivc {t}", f"ivm {t}", f"cpa {t}", f"mva {t}", f"mvo {t}", f"mvo {1 - t}", f"mco {t}", f"sca {t}", f"sma {t}",
            f"sfr {t} 52", f"sbk {t} 52", f"dat {t}", f"mxs {t}", f"cpi {t} 0 52", f"cpi {t} 1 52"]
     for a, b in AB:
         ops += [f"te2 {t} {a} {b}", f"ue2 {t} {a} {b}"]
@@ -409,6 +419,44 @@ def exhaustive_single(out, fl, cap, vals, full_contents, rng=None, keep=1.0):
                     out.append(hist(fl, cap, setup + [o] + tail))
 
 
+def moved_from_family(out, fl, cap, vals, rng=None, keep=1.0):
+    """the SECOND object of every two-object operation, seen as the call leaves it and then used on: contents of length
+    <= 2 (+ full) on both sides x {move assignment in both directions, move construction of either object, swap, non-member
+    swap, stack(Container&&)} x {append to the moved-from object, append to the target, remove from the moved-from object} x
+    a second two-object operation (so a stale size shows as wrong contents of BOTH objects), every object observed after
+    every step"""
+    k = kind(fl)
+    x, y = 52, 69
+    push = {"sv": "eb", "st": "pbr", "iv": "tpr"}[k]
+    if k == "sv" and fl == "sv_mov":
+        push = "eb"
+    pop = "pop"
+    read = {"sv": ["dat 0", "dat 1"], "st": ["siz 0", "siz 1"], "iv": ["dat 0", "dat 1"]}[k]
+    firsts = ["mvo 0", "mvo 1", "mco 0", "mco 1"] + (["swp", "fsw"] if k != "iv" else []) + ([f"fro 0 {L([y, x])}"] if k == "st" and cap >= 2 else [])
+    seconds = ["mvo 0", "mvo 1", "mco 1"] + (["swp"] if k != "iv" else ["mva 0"])
+    lens = sorted({0, 1, min(2, cap), cap} if cap <= 4 else {0, 1, 2, cap - 1})
+    for n0 in lens:
+        for n1 in lens:
+            if n0 > cap or n1 > cap:
+                continue
+            c0 = [(vals * 90)[i] for i in range(n0)]
+            c1 = [(list(reversed(vals)) * 90)[i] for i in range(n1)]
+            setup = setup_ops(fl, c0, c1) if max(n0, n1) <= 8 else \
+                {"sv": [f"rsz 0 {n0}", f"rsz 1 {n1}"], "st": [f"fcr 0 {L(c0)}", f"fcr 1 {L(c1)}"], "iv": [f"fil 0 {n0} {vals[0]}", f"fil 1 {n1} {vals[1]}"]}[k]
+            for f in firsts:
+                for s2 in seconds:
+                    for cont in ([f"{push} 1 {x}", f"{push} 0 {y}"], [f"{push} 0 {x}", f"{pop} 1"], [f"{pop} 0", f"{push} 1 {y}", f"{push} 1 {x}"]):
+                        if keep < 1.0 and rng.random() > keep:
+                            continue
+                        sim = Sim(cap, fl)
+                        ops = []
+                        for o in setup + [f] + cont + [s2] + [f"{push} 0 {x}", f"{push} 1 {y}"] + read:
+                            trial = Sim(cap, fl); trial.v = [list(sim.v[0]), list(sim.v[1])]
+                            if trial.apply(o):
+                                sim.apply(o); ops.append(o)
+                        out.append(hist(fl, cap, ops))
+
+
 def random_history(rng, fl, cap, vals, steps, want_invalid, fill_first=None):
     k = kind(fl)
     sim = Sim(cap, fl)
@@ -428,14 +476,15 @@ def random_history(rng, fl, cap, vals, steps, want_invalid, fill_first=None):
         i = rng.randint(0, max(0, sz - 1))
         if k == "iv":
             cand = [f"tpb {t} {x}", f"tpb {t} {x}", f"tem {t} {x}", f"tpr {t} {x}", f"upb {t} {x}", f"uem {t} {x}", f"upr {t} {x}",
-                    f"pop {t}", f"clr {t}", f"fr {t}", f"bk {t}", f"at {t} {i}", f"ivc {t}", f"ivm {t}", f"cpa {t}", f"mva {t}",
+                    f"pop {t}", f"clr {t}", f"fr {t}", f"bk {t}", f"at {t} {i}", f"ivc {t}", f"ivm {t}", f"cpa {t}", f"mva {t}", f"mvo {t}", f"mvo {t}", f"mco {t}",
                     f"sca {t}", f"sma {t}", f"sat {t} {i} {x}", f"sfr {t} {x}", f"sbk {t} {x}", f"dat {t}", f"mxs {t}",
                     f"cpi {t} {rng.randint(0, 1)} {x}", f"fil {t} {rng.randint(0, max(0, min(room, 4)) + 1)} {x}"]
             ab = rng.choice(AB)
             cand += [f"te2 {t} {ab[0]} {ab[1]}", f"ue2 {t} {ab[0]} {ab[1]}"] * 2
         elif k == "st":
             cand = [f"pb {t} {x}", f"pbr {t} {x}", f"eb {t} {x}", f"ebr {t} {x}", f"pop {t}", f"pop {t}", f"bk {t}", f"sbk {t} {x}", f"siz {t}", "swp", "fsw",
-                    "rel", f"cpc {t}", f"mvc {t}", f"cpa {t}", f"mva {t}", f"sca {t}",
+                    "rel", f"cpc {t}", f"mvc {t}", f"cpa {t}", f"mva {t}", f"mvo {t}", f"mvo {t}", f"mco {t}", f"sca {t}",
+                    f"fro {t} {L([rng.choice(vals) for _ in range(rng.randint(0, min(cap, 5)))])}",
                     f"fcc {t} {L([rng.choice(vals) for _ in range(rng.randint(0, min(cap, 5)))])}",
                     f"fcr {t} {L([rng.choice(vals) for _ in range(rng.randint(0, min(cap, 5)))])}"]
             ab = rng.choice(AB)
@@ -455,7 +504,7 @@ def random_history(rng, fl, cap, vals, steps, want_invalid, fill_first=None):
                     f"inn {t} {pos} {n} {x}", f"irg {t} {pos} {L(xs)}", f"mir {t} {pos} {L(xs)}", f"era {t} {i}", f"err {t} {f} {l}",
                     f"clr {t}", f"rsz {t} {rng.randint(0, cap)}", f"rsv {t} {rng.randint(0, cap)} {x}",
                     f"asn {t} {rng.randint(0, min(cap, 6))} {x}", f"asr {t} {L(small)}",
-                    "swp", "fsw", f"cpa {t}", f"mva {t}", f"cpc {t}", f"mrt {t}", f"eif {t} {rng.randint(0, 4)}", f"erv {t} {x}", "rel",
+                    "swp", "fsw", f"cpa {t}", f"mva {t}", f"mvo {t}", f"mvo {t}", f"mco {t}", f"cpc {t}", f"mrt {t}", f"eif {t} {rng.randint(0, 4)}", f"erv {t} {x}", "rel",
                     f"at {t} {i}", f"fr {t}", f"bk {t}", f"sca {t}", f"sma {t}", f"ssw {t}",
                     f"rit {t} {rng.randint(0, 2)}", f"cit {t}", f"dat {t}", f"mxs {t}", f"sat {t} {i} {x}", f"sfr {t} {x}", f"sbk {t} {x}",
                     f"ctn {t} {rng.randint(0, min(cap, 6))}", f"ctv {t} {rng.randint(0, min(cap, 6))} {x}", f"ctr {t} {L(small)}",
@@ -520,6 +569,12 @@ def gen(tier, rng):
     for fl in ("iv_int", "iv_trk", "iv_nxc", "iv_mov", "iv_str", "iv_pod", "iv_tdc"):
         for cap in [c for c in CAPS[fl] if c <= (3 if quick else 4)]:
             exhaustive_single(out, fl, cap, vals, full_contents=(fl == "iv_int" or not quick))
+    # ---- the moved-from / second object of every two-object operation, observed as the call leaves it and used on
+    for fl in sorted(CAPS):
+        small = [c for c in CAPS[fl] if 1 <= c <= 4]
+        big = [c for c in CAPS[fl] if 16 <= c <= 256 and fl not in ("sv_int", "iv_int", "stack")]
+        for cap in small[:1] + small[-1:] + ([] if quick else small[1:-1]) + big[-1:]:
+            moved_from_family(out, fl, cap, KT_VALS if fl.endswith("_kt") else vals, rng=rng, keep=(0.35 if quick else 1.0))
     # ---- records ordered by key only (operator< coarser than operator==), the element type for which the six relations
     #      are six different functions: every single operation from every content state (every history ends in `rel`) ...
     exhaustive_single(out, "sv_kt", 2, KT_VALS, full_contents=True, rng=rng, keep=(0.4 if quick else 1.0))
